@@ -9,6 +9,11 @@ checks = json.load(open(os.path.join(HERE, "checks.json")))
 
 # id -> (category, technique, level text, level note, design ref)
 CLAIMED = {
+ "C01": ("exploration",
+         "rapid-generated concurrent request rounds through the full stack; per-nonce differential against recording backends",
+         "Rounds of 1..32 requests (all route families, methods, generated paths/queries, body sizes 0..4 MiB around the 1 MiB inspection limit, JSON/non-JSON, Content-Length and generated chunk plans, delayed tails) are released together through the production assembly on both engines; every upstream request is matched to its client request by nonce and compared (method, stripped path, raw query, length, SHA-256; for translated requests model and content ownership), with exactly-once delivery and no phantom upstream request.",
+         "Schedule-dependent: covers the interleavings 16 cores produce for harness-shaped rounds (large chunked bodies with delayed tails among small inspected ones), not all schedules; replay repeats a round 40 times.",
+         "DESIGN.md §3 C01"),
  "C02": ("fault_enumeration",
          "fault-injecting raw-TCP backends + rapid-generated fault combinations; transcript-prefix oracle",
          "Every single-fault shape (reset/close/stall before headers, after headers, after k body bytes, truncated chunked, short Content-Length, garbage, refuse) is enumerated as first-dispatched backend in front of a healthy one on both engines x 3 proxy profiles, and fault combinations over 1..3 backends are rapid-generated; the client's bytes are compared with the per-backend transcripts (status, end-to-end headers, body prefix, no byte of another attempt, no dispatch after delivery began).",
